@@ -63,11 +63,13 @@ impl<Tz: TimeZone> Clone for DateTime<Tz> where <Tz as TimeZone>::Offset: Clone 
     u.raw(P.DATE_VIEW_AX + P.TD_VIEW + P.TIME_VIEW + P.DT_VIEW + LEMMAS)
     u.const(FDT, 'UNIX_EPOCH_DAY')
     u.raw('impl TimeDelta {')
-    for n in ['try_seconds', 'checked_add']:
+    for n in ['try_seconds', 'checked_add', 'checked_sub', 'try_days', 'num_days', 'num_seconds', 'subsec_nanos', 'new', 'neg', 'seconds', 'days']:
         u.stub(FTD, n, 'impl TimeDelta {', cid='TimeDelta::' + n)
     u.raw('}\nimpl NaiveDate {')
+    # every NaiveDate function of the contract table that date-time code may call (so that an edited body calling another
+    # of them still type-checks and is decided by the proof instead of becoming a tool error)
     for n in ['from_num_days_from_ce_opt', 'num_days_from_ce', 'checked_add_signed', 'checked_sub_signed', 'signed_duration_since',
-              'checked_add_days', 'checked_sub_days', 'succ_opt', 'pred_opt']:
+              'checked_add_days', 'checked_sub_days', 'succ_opt', 'pred_opt', 'add_days', 'from_ymd_opt', 'from_yo_opt', 'year', 'ordinal']:
         u.stub(FD, n, 'impl NaiveDate {', cid='NaiveDate::' + n)
     for cname in ['BEFORE_MIN', 'AFTER_MAX']:
         c = contracts['NaiveDate::' + cname]
